@@ -10,6 +10,7 @@ package main
 import (
 	"bytes"
 	"fmt"
+	"os"
 
 	"gitlab.com/gomidi/midi/v2/internal/utils"
 	"gitlab.com/gomidi/midi/v2/internal/verifh/engine"
@@ -130,6 +131,8 @@ func plans() []sp.Plan {
 			Add2: true, MaxEvents: ctx.Pick(2, 3), MaxTracks: 2},
 		{Name: "small-alphabet-deeper", Cfgs: cfgs(true), AlName: "small", Deltas: []uint32{0, 128}, CloseDeltas: []uint32{0},
 			Add2: false, MaxEvents: ctx.Pick(3, 4), MaxTracks: 2},
+		{Name: "lookalike-payloads", Cfgs: cfgs(false), AlName: "lookalike", Deltas: []uint32{0, 1}, CloseDeltas: []uint32{0},
+			MaxEvents: ctx.Pick(3, 4), MaxTracks: 2},
 		{Name: "write-in-history", Cfgs: cfgs(false), AlName: "tiny", Deltas: []uint32{0, 1}, CloseDeltas: []uint32{0},
 			Write: true, MaxWrites: 2, MaxEvents: ctx.Pick(3, 4), MaxTracks: 3},
 		{Name: "from-read-then-extend", Cfgs: fromRead(cfgs(false)), AlName: "tiny", Deltas: []uint32{0, 1}, CloseDeltas: []uint32{0},
@@ -217,6 +220,51 @@ func vlqBeyond() {
 	ctx.Add("vlq_values_above_2^28", int64(len(vals)))
 }
 
+// writeFile: WriteFile must leave exactly the bytes WriteTo emits in the file,
+// also when the path already holds another (longer or shorter) file.
+func writeFile() {
+	dir, err := os.MkdirTemp(os.Getenv("VERIF_WORK"), "c03-writefile-")
+	if err != nil {
+		ctx.Guard(false, "no temp dir: %v", err)
+		return
+	}
+	defer os.RemoveAll(dir)
+	al := sp.FullAlphabet()
+	mk := func(n int) *sp.Inst {
+		var ops []sp.Op
+		for i := 0; i < n; i++ {
+			ops = append(ops, sp.Op{Kind: sp.OpAdd, D: uint32(i % 3), M1: i % len(al)})
+		}
+		ops = append(ops, sp.Op{Kind: sp.OpSMFAdd})
+		return sp.Build(sp.Cfg{Ctor: 0, TF: smf.MetricTicks(96)}, al, ops)
+	}
+	path := dir + "/song.mid"
+	for _, seq := range [][]int{{1}, {40, 2}, {2, 40, 3}, {10, 10}, {200, 1, 0}} {
+		os.Remove(path)
+		for _, n := range seq {
+			ctx.Eval()
+			in := mk(n)
+			var want bytes.Buffer
+			if _, err := in.Clone().S.WriteTo(&want); err != nil {
+				continue
+			}
+			var werr error
+			c := engine.Catch(func() { werr = in.S.WriteFile(path) })
+			got, _ := os.ReadFile(path)
+			switch {
+			case c.Panicked:
+				ctx.Violation(c.Sig+":WriteFile", map[string]interface{}{"kind": "writefile", "events": n, "what": "WriteFile panicked: " + c.Value})
+			case werr != nil:
+				ctx.Violation("writefile:error", map[string]interface{}{"kind": "writefile", "events": n, "what": "WriteFile failed: " + werr.Error()})
+			case !bytes.Equal(got, want.Bytes()):
+				ctx.Violation("writefile:content", map[string]interface{}{"kind": "writefile", "events": n, "sequence": seq,
+					"what": fmt.Sprintf("the file holds %d bytes, WriteTo emits %d (the path held another file before)", len(got), want.Len())})
+			}
+			ctx.Add("writefile_cases", 1)
+		}
+	}
+}
+
 func main() {
 	ctx = engine.Start("C03", "model_checking")
 	if ctx.ReplayPath != "" {
@@ -269,6 +317,7 @@ func main() {
 			}
 		})
 	})
+	ctx.Jobs("writefile", 1, func(int) { writeFile() })
 	const parts = 32
 	ctx.Jobs("vlq", parts, func(j int) {
 		step := uint64(1<<28) / parts
